@@ -75,6 +75,15 @@ def gen_queries(rnd, common, dictionary, tier):
                     add(sub + b"x")
                     add(b"x" + sub)
         add(b[::-1])
+    # strings that span the end of one sequence and the start of another: contained in no single sequence
+    for s1 in SEQUENCES:
+        for s2 in SEQUENCES:
+            for i in range(2, 7):
+                for j in range(2, 7):
+                    w = (s1[-i:] + s2[:j]).encode()
+                    if len(w) >= 8:
+                        add(w)
+                        add(w.upper())
     for ch in ["a", "Z", "0", "é", "ü", "€", "😀", "\x00", " "]:
         for n in range(1, 13):
             add((ch * n).encode())
